@@ -1,9 +1,312 @@
-(* Props/C20.v — placeholder until Proofs/Dates.v lands *)
-From Coq Require Import ZArith List.
-From EV Require Import Res Arr Dates.
+(* Props/C20.v — C20 "Date helpers bucket timestamps into the day and period that contain them".
+   Statements only; every proof is `exact <lemma of Proofs/DatesProofs.v>`.
+   Model: Model/Dates.v (integer ticks, `dlen` ticks per day; get_period_offsets as repaired by
+   work/C20/fix-F-C20c.diff).  Spec: Spec/DatesSpec.v. *)
+From Coq Require Import ZArith List Bool Lia.
+From EV Require Import Res Arr Dates DatesSpec DatesProofs.
 Import ListNotations.
 Open Scope Z_scope.
 
-Theorem c20_smoke : get_periods 10 0 100 10 2 = Ok [0; 20; 40; 60; 80; 100].
+(* ------------------------------------------------------------------ get_periods *)
+(* FULL.  With enough fuel (periods_fuel = |e-s|/|td| + 2 iterations) the stepping loop returns
+   exactly [s + k*td | 0 <= k <= n], n = |e-s| / |td|, td = unit*delta, for both signs of delta,
+   and raises ValueError exactly on delta = 0 / end on the wrong side. *)
+Theorem get_periods_arith_progression : forall s e unit delta fuel,
+  0 < unit -> (fuel >= periods_fuel s e unit delta)%nat ->
+  get_periods fuel s e unit delta = periods_spec s e unit delta.
+Proof. exact get_periods_spec_eq. Qed.
+Print Assumptions get_periods_arith_progression.
+
+(* FULL.  What the closed form means: n+1 equally spaced boundaries from `s` towards `e` in the
+   sign of delta; the last one does not pass `e`, the next one would (the exact n). *)
+Theorem get_periods_meaning : forall s e unit delta l, 0 < unit ->
+  periods_spec s e unit delta = Ok l ->
+  let td := unit * delta in
+  exists n, 0 <= n /\ len l = n + 1 /\ (forall k, 0 <= k <= n -> nthZ l k = s + k * td) /\
+            (0 < delta -> s <= e /\ s + n * td <= e < s + (n + 1) * td) /\
+            (delta < 0 -> e <= s /\ s + (n + 1) * td < e <= s + n * td).
+Proof. exact periods_spec_meaning. Qed.
+Print Assumptions get_periods_meaning.
+
+(* FULL.  Error cases of get_periods: ValueError iff delta = 0, or delta < 0 with start < end,
+   or delta > 0 with end < start; nothing else is ever raised. *)
+Theorem get_periods_raises : forall s e unit delta,
+  (periods_spec s e unit delta = Raise E_ValueError <->
+   delta = 0 \/ (delta < 0 /\ s < e) \/ (0 < delta /\ e < s)) /\
+  (forall r, periods_spec s e unit delta = r -> r = Raise E_ValueError \/ exists l, r = Ok l).
+Proof. exact periods_spec_raises. Qed.
+Print Assumptions get_periods_raises.
+
+Example get_periods_example_up :
+  get_periods (periods_fuel 0 100 10 2) 0 100 10 2 = Ok [0; 20; 40; 60; 80; 100].
 Proof. vm_compute. reflexivity. Qed.
-Print Assumptions c20_smoke.
+Example get_periods_example_down :
+  get_periods (periods_fuel 100 35 10 (-2)) 100 35 10 (-2) = Ok [100; 80; 60; 40].
+Proof. vm_compute. reflexivity. Qed.
+
+(* ------------------------------------------------------------------ get_days *)
+(* FULL (on integer ticks).  For a filter of the field's length (or none):
+   either an origin exists — the explicit start, else the minimum of the filter-selected
+   timestamps — and get_days returns days[i] = (t_i - origin) / dlen together with
+   flag[i] = filter_i && start <= t_i && t_i < end (None when no argument is given),
+   or there is no start and nothing is selected, and it raises ValueError. *)
+Theorem get_days_correct : forall dlen ts flt s e,
+  let f := eff_filter ts flt in
+  length f = length ts ->
+  (exists o, origin_spec ts f s o /\
+     get_days dlen ts flt s e =
+     Ok (days_spec dlen o ts, if no_args flt s e then None else Some (flags_spec ts f s e)))
+  \/ (s = None /\ selected ts f = [] /\ get_days dlen ts flt s e = Raise E_ValueError).
+Proof. exact get_days_total. Qed.
+Print Assumptions get_days_correct.
+
+(* the origin is unique, so the theorem above determines the result *)
+Theorem get_days_origin_unique : forall ts f s o1 o2,
+  origin_spec ts f s o1 -> origin_spec ts f s o2 -> o1 = o2.
+Proof. exact origin_unique. Qed.
+Print Assumptions get_days_origin_unique.
+
+(* index-level reading of the three spec functions used above *)
+Theorem get_days_flag_pointwise : forall ts f s e j, length f = length ts -> (j < length ts)%nat ->
+  nth j (flags_spec ts f s e) false =
+  nth j f false && geb_opt s (nth j ts 0) && ltb_opt e (nth j ts 0).
+Proof. exact flags_spec_nth. Qed.
+Print Assumptions get_days_flag_pointwise.
+
+Theorem get_days_selected_pointwise : forall ts f x,
+  In x (selected ts f) <-> exists j, (j < length ts)%nat /\ nth j f false = true /\ nth j ts 0 = x.
+Proof. exact selected_In. Qed.
+Print Assumptions get_days_selected_pointwise.
+
+(* (t - o) / dlen is the whole number of dlen-tick days elapsed since o (floor, also for t < o) *)
+Theorem get_days_day_is_floor : forall dlen o t q, 0 < dlen ->
+  ((t - o) / dlen = q <-> o + q * dlen <= t < o + (q + 1) * dlen).
+Proof. exact day_floor. Qed.
+Print Assumptions get_days_day_is_floor.
+
+(* a flagged (in-range) day is never negative *)
+Theorem get_days_flagged_day_nonneg : forall dlen ts f s e o j,
+  0 < dlen -> length f = length ts -> origin_spec ts f s o -> (j < length ts)%nat ->
+  nth j (flags_spec ts f s e) false = true -> 0 <= nth j (days_spec dlen o ts) 0.
+Proof. exact flagged_day_nonneg. Qed.
+Print Assumptions get_days_flagged_day_nonneg.
+
+Example get_days_example :
+  get_days 86400 [172800; 86400; 5; 259200] (Some [false; true; false; true]) None (Some 200000)
+  = Ok ([1; 0; -1; 2], Some [false; true; false; false]).
+Proof. vm_compute. reflexivity. Qed.
+
+(* filters of another length than the field (outside the property; the model follows numpy) *)
+Theorem get_days_mismatch_nostart : forall dlen ts f e, length f <> length ts ->
+  get_days dlen ts (Some f) None e =
+  if (length f =? 0)%nat then Raise E_ValueError else Raise E_IndexError.
+Proof. exact get_days_mismatch_nostart_proof. Qed.
+Print Assumptions get_days_mismatch_nostart.
+
+Theorem get_days_mismatch_start_bad : forall dlen ts f sd e,
+  length f <> length ts -> length f <> 1%nat -> length ts <> 1%nat ->
+  get_days dlen ts (Some f) (Some sd) e = Raise E_ValueError.
+Proof. exact get_days_mismatch_start_bad_proof. Qed.
+Print Assumptions get_days_mismatch_start_bad.
+
+Theorem get_days_broadcast_filter : forall dlen ts b sd e, length ts <> 1%nat ->
+  get_days dlen ts (Some [b]) (Some sd) e =
+  Ok (days_spec dlen sd ts, Some (flags_spec ts (repeat b (length ts)) (Some sd) e)).
+Proof. exact get_days_broadcast_filter_proof. Qed.
+Print Assumptions get_days_broadcast_filter.
+
+Theorem get_days_broadcast_field : forall dlen t f sd e, length f <> 1%nat ->
+  get_days dlen [t] (Some f) (Some sd) e =
+  Ok ([(t - sd) / dlen], Some (map (fun b => flag_at (Some sd) e t b) f)).
+Proof. exact get_days_broadcast_field_proof. Qed.
+Print Assumptions get_days_broadcast_field.
+
+(* REFUTED (old code, F-C20a, fixed in /repo cc68812): the int8 filter used as integer indices
+   does not select the origin of the property *)
+Theorem get_days_int8_filter_refuted :
+  exists ts f o, length f = length ts /\ origin_spec ts f None o /\
+    get_days_origin_int8_prefix ts f <> Ok o.
+Proof. exact get_days_int8_filter_refuted_proof. Qed.
+Print Assumptions get_days_int8_filter_refuted.
+
+(* ------------------------------------------------------------------ generate_period_offset_map *)
+(* FULL.  For non-decreasing boundaries (so the day deltas are non-decreasing and start at 0) the
+   map has one entry per day of [0, last delta) and entry d is i  <->  deltas[i] <= d < deltas[i+1];
+   every entry is the index of the (unique) period whose half-open interval contains the day. *)
+Theorem period_map_halfopen : forall dlen periods,
+  0 < dlen -> periods <> [] -> sorted periods ->
+  let ds := deltas_spec dlen periods in
+  exists m, generate_period_offset_map dlen periods = Ok m /\
+    nthZ ds 0 = 0 /\ len m = last ds 0 /\
+    (forall d, 0 <= d < len m -> 0 <= nthZ m d < len ds - 1 /\ in_period ds (nthZ m d) d) /\
+    (forall d i, 0 <= d < len m -> 0 <= i < len ds - 1 -> (nthZ m d = i <-> in_period ds i d)).
+Proof. exact period_map_halfopen_proof. Qed.
+Print Assumptions period_map_halfopen.
+
+Example period_map_example :
+  sortedb [0; 604800; 1209600; 1814400] = true /\
+  generate_period_offset_map 86400 [0; 604800; 1209600; 1814400]
+  = Ok [0;0;0;0;0;0;0; 1;1;1;1;1;1;1; 2;2;2;2;2;2;2].
+Proof. vm_compute. split; reflexivity. Qed.
+
+(* FULL.  Errors of generate_period_offset_map, for every input: IndexError on an empty list,
+   ValueError ("negative dimensions") iff the last boundary precedes the first — in particular
+   on every descending list (F-C20b: documented limitation) — and otherwise a map of
+   (last - first) / dlen entries. *)
+Theorem period_map_errors : forall dlen periods, 0 < dlen ->
+  (periods = [] -> generate_period_offset_map dlen periods = Raise E_IndexError) /\
+  (periods <> [] -> last periods 0 < nthZ periods 0 ->
+     generate_period_offset_map dlen periods = Raise E_ValueError) /\
+  (periods <> [] -> nthZ periods 0 <= last periods 0 ->
+     exists m, generate_period_offset_map dlen periods = Ok m /\
+               len m = (last periods 0 - nthZ periods 0) / dlen).
+Proof. exact period_map_errors_proof. Qed.
+Print Assumptions period_map_errors.
+
+(* F-C20b as a theorem: whatever get_periods returns for a negative delta (two or more
+   boundaries) makes generate_period_offset_map raise ValueError. *)
+Theorem period_map_descending_raises : forall dlen s e unit delta l,
+  0 < dlen -> 0 < unit -> delta < 0 -> 1 <= periods_n s e (unit * delta) ->
+  periods_spec s e unit delta = Ok l ->
+  generate_period_offset_map dlen l = Raise E_ValueError.
+Proof. exact descending_periods_raise_proof. Qed.
+Print Assumptions period_map_descending_raises.
+
+Example period_map_descending_example :
+  periods_spec 1814400 0 604800 (-1) = Ok [1814400; 1209600; 604800; 0] /\
+  generate_period_offset_map 86400 [1814400; 1209600; 604800; 0] = Raise E_ValueError.
+Proof. vm_compute. split; reflexivity. Qed.
+
+(* FULL.  Boundaries w whole days apart (what get_periods produces for delta > 0): the map is
+   d |-> d / w on [0, n*w). *)
+Theorem period_map_of_progression : forall dlen s w n, 0 < dlen -> 0 < w ->
+  exists m, generate_period_offset_map dlen (arith_prog s (w * dlen) (S n)) = Ok m /\
+    len m = Z.of_nat n * w /\ forall d, 0 <= d < len m -> nthZ m d = d / w.
+Proof. exact period_map_of_progression_proof. Qed.
+Print Assumptions period_map_of_progression.
+
+(* ------------------------------------------------------------------ get_period_offsets *)
+(* FULL, with in_range (repaired code): if every flagged day is a legal index of the map
+   (-len <= d < len; a negative one wraps once) the result is  pbd[day] where flagged, -1 where
+   not; if some flagged day is not, IndexError (OOB site 2). *)
+Theorem period_offsets_correct : forall pbd days fl, length fl = length days ->
+  (offsets_pre pbd days fl ->
+     get_period_offsets pbd days (Some fl) = Ok (offsets_spec pbd days fl)) /\
+  ((exists d, In (d, true) (combine days fl) /\ ~ idx_ok pbd d) ->
+     get_period_offsets pbd days (Some fl) = OOB 2).
+Proof. exact period_offsets_correct_proof. Qed.
+Print Assumptions period_offsets_correct.
+
+(* FULL, without in_range: pbd[day] with numpy's single negative wrap, IndexError (OOB site 1)
+   iff some day is outside [-len, len). *)
+Theorem period_offsets_noflags_correct : forall pbd days,
+  ((forall d, In d days -> idx_ok pbd d) ->
+     get_period_offsets pbd days None = Ok (map (wrap_get pbd) days)) /\
+  ((exists d, In d days /\ ~ idx_ok pbd d) -> get_period_offsets pbd days None = OOB 1).
+Proof. exact period_offsets_noflags_correct_proof. Qed.
+Print Assumptions period_offsets_noflags_correct.
+
+Theorem period_offsets_pre_pointwise : forall pbd days fl, length fl = length days ->
+  (offsets_pre pbd days fl <->
+   forall j, (j < length days)%nat -> nth j fl false = true -> idx_ok pbd (nth j days 0)).
+Proof. exact offsets_pre_iff. Qed.
+Print Assumptions period_offsets_pre_pointwise.
+
+Theorem period_offsets_spec_pointwise : forall pbd days fl j,
+  length fl = length days -> (j < length days)%nat ->
+  nth j (offsets_spec pbd days fl) 0 = if nth j fl false then wrap_get pbd (nth j days 0) else -1.
+Proof. exact offsets_spec_nth. Qed.
+Print Assumptions period_offsets_spec_pointwise.
+
+(* FULL.  -1 iff the in-range flag is off (for a map of period indices, which are >= 0). *)
+Theorem period_offsets_minus1_iff_out_of_range : forall pbd days fl j,
+  length fl = length days -> offsets_pre pbd days fl -> (forall v, In v pbd -> 0 <= v) ->
+  (j < length days)%nat ->
+  (nth j (offsets_spec pbd days fl) 0 = -1 <-> nth j fl false = false).
+Proof. exact offsets_minus1_iff. Qed.
+Print Assumptions period_offsets_minus1_iff_out_of_range.
+
+(* an in_range array of another length is rejected (numpy accepts only the empty mask) *)
+Theorem period_offsets_mismatch : forall pbd days fl, length fl <> length days -> fl <> [] ->
+  get_period_offsets pbd days (Some fl) = Raise E_IndexError.
+Proof. exact period_offsets_flags_mismatch. Qed.
+Print Assumptions period_offsets_mismatch.
+
+Example period_offsets_example :
+  get_period_offsets [0;0;0;1;1;2;2] [3; 9; -1; 6; 0] (Some [true; false; false; true; true])
+  = Ok [1; -1; -1; 2; 0].
+Proof. vm_compute. reflexivity. Qed.
+
+(* REFUTED (code before work/C20/fix-F-C20c.diff): an out-of-range entry with an empty map made
+   get_period_offsets raise IndexError; the property (and the repaired code) say -1. *)
+Theorem period_offsets_prefix_refuted :
+  exists pbd days fl, length fl = length days /\ offsets_pre pbd days fl /\
+    get_period_offsets_prefix pbd days fl = OOB 2 /\
+    get_period_offsets pbd days (Some fl) = Ok (offsets_spec pbd days fl) /\
+    offsets_spec pbd days fl = [-1].
+Proof. exact period_offsets_prefix_refuted_proof. Qed.
+Print Assumptions period_offsets_prefix_refuted.
+
+(* ------------------------------------------------------------------ compositions: the property *)
+(* FULL.  generate_period_offset_map + get_period_offsets with flags: each in-range day gets the
+   index of the period whose half-open interval contains it, every other entry -1. *)
+Theorem period_offsets_halfopen : forall dlen periods days fl,
+  0 < dlen -> periods <> [] -> sorted periods -> length fl = length days ->
+  let ds := deltas_spec dlen periods in
+  (forall j, (j < length days)%nat -> nth j fl false = true -> 0 <= nth j days 0 < last ds 0) ->
+  exists m r, generate_period_offset_map dlen periods = Ok m /\
+    get_period_offsets m days (Some fl) = Ok r /\ length r = length days /\
+    forall j, (j < length days)%nat ->
+      (nth j fl false = false -> nth j r 0 = -1) /\
+      (nth j fl false = true ->
+         (0 <= nth j r 0 < len ds - 1 /\ in_period ds (nth j r 0) (nth j days 0)) /\
+         forall i, 0 <= i < len ds - 1 -> (nth j r 0 = i <-> in_period ds i (nth j days 0))).
+Proof. exact period_offsets_halfopen_proof. Qed.
+Print Assumptions period_offsets_halfopen.
+
+(* FULL.  The same without flags, under the precondition the code needs: every day is a day of
+   the map (outside it: period_offsets_noflags_correct — IndexError, or a negative day wraps). *)
+Theorem period_offsets_noflags_halfopen : forall dlen periods days,
+  0 < dlen -> periods <> [] -> sorted periods ->
+  let ds := deltas_spec dlen periods in
+  (forall d, In d days -> 0 <= d < last ds 0) ->
+  exists m r, generate_period_offset_map dlen periods = Ok m /\
+    get_period_offsets m days None = Ok r /\ length r = length days /\
+    forall j, (j < length days)%nat ->
+      forall i, 0 <= i < len ds - 1 -> (nth j r 0 = i <-> in_period ds i (nth j days 0)).
+Proof. exact period_offsets_noflags_halfopen_proof. Qed.
+Print Assumptions period_offsets_noflags_halfopen.
+
+(* FULL.  The pipeline of the docstring, end to end, for delta > 0 and a unit of u whole days:
+   get_periods -> generate_period_offset_map, get_days(ts, filter, start, end') ->
+   get_period_offsets yields (t - start) / td for the timestamps that pass the filter and lie
+   in [start, end'), and -1 for all others (end' not after the last boundary). *)
+Theorem pipeline_correct : forall dlen u delta s e e' ts flt fuel,
+  0 < dlen -> 0 < u -> 0 < delta -> s <= e ->
+  let unit := u * dlen in
+  let td := unit * delta in
+  let n := periods_n s e td in
+  let f := eff_filter ts flt in
+  length f = length ts -> e' <= s + n * td ->
+  (fuel >= periods_fuel s e unit delta)%nat ->
+  exists l m days fl r,
+    get_periods fuel s e unit delta = Ok l /\
+    generate_period_offset_map dlen l = Ok m /\
+    get_days dlen ts flt (Some s) (Some e') = Ok (days, Some fl) /\
+    get_period_offsets m days (Some fl) = Ok r /\
+    r = map (fun p => if flag_at (Some s) (Some e') (fst p) (snd p) then (fst p - s) / td else -1)
+            (combine ts f).
+Proof. exact pipeline_proof. Qed.
+Print Assumptions pipeline_correct.
+
+Example pipeline_example :
+  let ts := [5; 700000; 1300000; 86400; 1209599; 1209600] in
+  let l := [0; 604800; 1209600] in
+  let m := [0;0;0;0;0;0;0; 1;1;1;1;1;1;1] in
+  get_periods (periods_fuel 0 1300000 604800 1) 0 1300000 604800 1 = Ok l /\
+  generate_period_offset_map 86400 l = Ok m /\
+  get_days 86400 ts (Some [true; true; true; false; true; true]) (Some 0) (Some 1209600)
+    = Ok ([0; 8; 15; 1; 13; 14], Some [true; true; false; false; true; false]) /\
+  get_period_offsets m [0; 8; 15; 1; 13; 14] (Some [true; true; false; false; true; false])
+    = Ok [0; 1; -1; -1; 1; -1].
+Proof. vm_compute. repeat split; reflexivity. Qed.
